@@ -11,6 +11,7 @@ Case (driver "create"):
              {"form": "unix", "virt": 80, "path": "/run/x.sock"} | {"form": "ip", "virt": 80, "target": "10.0.0.1:81"} |
              {"form": "str", "virt": 80, "target": "127.0.0.1:81" | "unix:/p"}],
    "free": [port, ...],                                   what the reactor hands out for "int" forms
+   "del_refused": null | 5xx code,                        optional: Tor refuses the first DEL_ONION; remove() is called again
    "torconf": null | {"HiddenServiceNonAnonymousMode": 0|1, "HiddenServiceSingleHopMode": 0|1},
                                                           optional: options the Tor behind the bootstrapped TorConfig
                                                           knows (config/names + GETCONF); null = it lists none of them
@@ -55,6 +56,7 @@ ASSUMPTIONS = [
     "a key Tor generated may be retained with or without its 'TYPE:' prefix",
     "the server sends an unrequested PrivateKey line only together with DiscardPK (the custody clause); v3+BasicAuth is answered 512 as Tor does, so only the wire clauses are checked there",
     "part of the cases run against a Tor whose config/names lists HiddenServiceNonAnonymousMode / HiddenServiceSingleHopMode (Boolean, GETCONF 0 or 1) so that the bootstrapped TorConfig knows them; the requested flags must be sent whatever the library knows about Tor's configuration (Tor, not txtorcon, decides whether NonAnonymous is acceptable)",
+    "in part of the cases Tor answers the first DEL_ONION with 5xx (512/551/552): the service still exists, so remove() must not succeed, and a second remove() must send DEL_ONION for the same address again (answered 250 then) or fail - it may not report success without asking Tor; what a second remove() does after a SUCCESSFUL removal is not judged",
     "whether create() completes at all is C15's subject: when it stays pending after the descriptor upload the service object is taken from config.EphemeralOnionServices and remove() is skipped",
 ]
 
@@ -233,7 +235,14 @@ def drive_create(case):
     if tconf:
         conf = dict((k, ("Boolean", str(v))) for k, v in sorted(tconf.items()))
         conf["SocksPort"] = ("LineList", "9050")
-    tor = onionref.OnionTor(add_onion=answer, conf=conf)
+    refuse_del = case.get("del_refused")      # 5xx code Tor gives the FIRST DEL_ONION, or null
+
+    def answer_del(line):
+        if refuse_del and len(tor.del_onion_lines) == 1:
+            return {"code": refuse_del, "parts": [], "final": "Failed to remove onion service"}
+        return {"code": 250, "parts": [], "final": "OK"}
+
+    tor = onionref.OnionTor(add_onion=answer, conf=conf, del_onion=answer_del)
     reactor = onionref.FakePortReactor(case["free"])
     pkey = None
     if discard:
@@ -382,6 +391,31 @@ def drive_create(case):
                     if not ok:
                         res.bad("wrong-del-onion", "remove() wrote %r for service %s" % (
                             tor.pipe.commands[n_before:], sid))
+                    elif refuse_del:
+                        # Tor refused: the service still exists.  remove() must say so, and a second
+                        # remove() must ask Tor again (or fail) - never report success without asking
+                        res.label("del-onion-refused-then-removed-again")
+                        if wr.succeeded:
+                            res.bad("refused-remove-reported-success", "DEL_ONION answered %d, remove() -> %r" % (
+                                refuse_del, wr.outcome()))
+                        n_before = len(tor.pipe.commands)
+                        wr2 = Watch(svc.remove())
+                        tor.pipe.pump()
+                        asked = False
+                        if len(dels) == 2:
+                            try:
+                                asked = onionref.parse_del_onion(dels[1]) == sid
+                            except onionref.DecodeError:
+                                asked = False
+                        if len(dels) > 2 or (len(dels) == 2 and not asked):
+                            res.bad("wrong-del-onion", "second remove() wrote %r for service %s" % (
+                                tor.pipe.commands[n_before:], sid))
+                        elif not asked and not wr2.failed:
+                            res.bad("remove-after-refusal-does-not-ask-tor",
+                                    "first DEL_ONION was answered %d (service still there); second remove() -> %r "
+                                    "and wrote %r" % (refuse_del, wr2.outcome(), tor.pipe.commands[n_before:]))
+                        elif asked and not wr2.succeeded:
+                            res.bad("remove-failed", "second DEL_ONION answered 250 OK, remove() -> %r" % (wr2.outcome(),))
                     elif not wr.succeeded:
                         res.bad("remove-failed", "DEL_ONION answered 250 OK, remove() -> %r" % (wr.outcome(),))
                     custody("after remove")
@@ -494,6 +528,7 @@ def cases(draw):
         "auth": auth,
         "ports": draw(st.lists(port_specs(), min_size=1, max_size=3)),
         "free": draw(st.lists(st.integers(1024, 65535), min_size=6, max_size=6)),
+        "del_refused": draw(st.sampled_from([None, None, None, 512, 551, 552])),
         "torconf": draw(st.one_of(st.none(), st.fixed_dictionaries({
             "HiddenServiceNonAnonymousMode": st.integers(0, 1), "HiddenServiceSingleHopMode": st.integers(0, 1)}))),
         "reply": {"n": draw(st.integers(0, 50)), "key_anyway": draw(st.booleans()),
@@ -540,6 +575,7 @@ def grid_cases():
             yield {"api": api, "version": version, "key": {"kind": kind, "text": text},
                    "detach": detach, "single_hop": single, "auth": auth, "ports": ports,
                    "free": [40001, 40002, 40003, 40004, 40005, 40006],
+                   "del_refused": [None, None, 551, None, 552, None, 512][n % 7],
                    "torconf": [None, {"HiddenServiceNonAnonymousMode": 0, "HiddenServiceSingleHopMode": 0},
                                {"HiddenServiceNonAnonymousMode": 1, "HiddenServiceSingleHopMode": 1},
                                {"HiddenServiceNonAnonymousMode": 0, "HiddenServiceSingleHopMode": 1},
@@ -715,6 +751,15 @@ MUTANTS = [
      "        cmd += ' Port={},{}'.format(*port.split(' ', 1))",
      "        cmd += ' Port={},{}'.format(*[(('unix:' + os.path.normpath(x[5:])) if x.startswith('unix:') else x)\n"
      "                                      for x in port.split(' ', 1)])"),
+    ("remove-remembers-attempt-not-success", "txtorcon/onion.py",
+     "class EphemeralOnionService(object):\n",
+     "class EphemeralOnionService(object):\n    _removed = False\n\n"
+     "    def __getattribute__(self, name):\n"
+     "        if name == 'remove' and object.__getattribute__(self, '_removed'):\n"
+     "            return lambda: defer.succeed(None)\n"
+     "        if name == 'remove':\n"
+     "            self._removed = True\n"
+     "        return object.__getattribute__(self, name)\n\n"),
     ("only-first-port", "txtorcon/onion.py",
      "    for port in onion._ports:\n        cmd += ' Port=",
      "    for port in onion._ports[:1]:\n        cmd += ' Port="),
